@@ -4,27 +4,55 @@ import Pi2.MM.AstTie
 
 `Pi2/MM/AstTie.lean` is about the strings the `Encoder` writes.  The text of `Encoder.encode_string` is what `Printer.write` /
 `flush` make of them: a line buffer, the current indentation in front of a line whose buffer "is empty", `rstrip` of the last
-string of a line.  `MMAstSup.Printer` is a hand-written model of that class (the translator compares the class with the text
-the model was written against; `vlib/props/c17.py` compares `printerText` with the real text character by character).
+string of a line.  `MMAstSup.Printer` is a hand-written model of that class as repaired by 5aefd01 (`is_line_buffer_empty` counts
+only `' \t\f\r'` as blank; the translator compares the class with the text the model was written against; `vlib/props/c17.py`
+compares `printerText` with the real text character by character).
 
-* `printer_tokens`: if `tab` consists of ignored characters and the trailing Python-whitespace of every line of every written
-  string is ignored by the grammar too (`strOK`), the text is lexed to the same tokens as the concatenation of the written strings.
-* `encode_calls_ok`: the calls of the translated `Encoder` for a database of the model satisfy that, when every string of the
-  database is a lexeme that does not END in a character `str.isspace` accepts (`Tok`).
-* `print_parse_real_text`: C17's first sentence for the translated parser, the translated `Encoder` AND the `Printer` model.
-* `printer_drops_blank_label`: without the hypothesis it is false — the label `'\xa0'` (a `TOKEN` for the grammar, whitespace for
-  `str.isspace`) at the start of a line is taken for indentation and dropped: `\xa0 $a x $.` is printed as `$a x $.`.
+* `printer_tokens`: if `tab` consists of ignored characters, the text is lexed to the same tokens as the concatenation of the
+  written strings PROVIDED every line that a written string ends with `'\n'` (`linesOK`), and the last line written
+  (`lastLineOf`), has no trailing Python-whitespace that the grammar does not ignore (`fragOK`) — `flush` `rstrip`s the last
+  string of a line.  `printer_rstrip_residual`: that condition is needed for `Printer` as such (`write('x\xa0\ny')` prints `x\ny`).
+* `encode_calls_ok` / `encode_last_line`: the translated `Encoder` meets the condition for EVERY database of the model whose
+  strings are lexemes (`AstTie.Lex`): it ends a line only by writing `'\n'` itself, so the string `rstrip` sees is `''`.
+* `print_parse_real_text`: C17's first sentence for the translated parser, the translated `Encoder` AND the `Printer` model, under
+  `Lex` alone.
+* `printer_keeps_blank_label`, `printer_keeps_blank_label_in_block`: the former counterexamples (`'\xa0 $a x $.'`; a label
+  `'\x0b'` on a continuation line of a block) round-trip now; `old_printer_dropped_blank_label`: with the `str.isspace` test of the
+  class before 5aefd01 (`printerTextOld`) the label was taken for indentation and dropped.
 -/
 namespace AstText
 open MM MMAstSup Gen.MMAst AstTie
 open ImpSup (pyIsSpace)
 
 def WsOnly (l : List Char) : Prop := ∀ c ∈ l, isWs c = true
-/-- the trailing Python-whitespace of a line is ignored by the grammar too -/
+/-- the trailing Python-whitespace of a line (what `rstrip` removes) is ignored by the grammar too -/
 def fragOK (f : List Char) : Bool := (f.reverse.takeWhile pyIsSpace).all isWs
-/-- every line of a written string -/
-def strOK (s : String) : Bool := (pySplitNl s.toList).all fragOK
-def callsOK (cs : List PCall) : Prop := ∀ s, PCall.write s ∈ cs → strOK s = true
+/-- every line of a written string that the string itself ends with a newline -/
+def linesOK (s : String) : Bool := (pySplitNl s.toList).dropLast.all fragOK
+def callsOK (cs : List PCall) : Prop := ∀ s, PCall.write s ∈ cs → linesOK s = true
+/-- the last line of a string -/
+def lastLine (msg : List Char) : List Char := (pySplitNl msg).getLast?.getD []
+/-- the last line written by the calls (`L`: the one before them) -/
+def lastLineOf : List PCall → List Char → List Char
+  | [], L => L
+  | .write s :: cs, _ => lastLineOf cs (lastLine s.toList)
+  | .indent :: cs, L => lastLineOf cs L
+  | .deindent :: cs, L => lastLineOf cs L
+
+/-! the functions of the model, unfolded -/
+theorem writeLine_eq (p : Printer) (l : List Char) : p.writeLine l =
+    { (if p.is_line_buffer_empty then { p with line_buffer := [p.current_indentation] } else p) with
+      line_buffer := (if p.is_line_buffer_empty then { p with line_buffer := [p.current_indentation] } else p).line_buffer ++ [l] } := rfl
+theorem write_eq (p : Printer) (msg : List Char) : p.write msg =
+    match pySplitNl msg with
+    | [] => p
+    | l :: ls => ls.foldl (fun p l => p.newline.writeLine l) (p.writeLine l) := rfl
+theorem run_nil (p : Printer) : p.run [] = some p := rfl
+theorem run_write (p : Printer) (s : String) (cs : List PCall) : p.run (.write s :: cs) = (p.write s.toList).run cs := rfl
+theorem run_indent (p : Printer) (cs : List PCall) : p.run (.indent :: cs) = p.indent.run cs := rfl
+theorem run_deindent (p : Printer) (cs : List PCall) : p.run (.deindent :: cs) = p.deindent.bind fun q => q.run cs := rfl
+theorem printerText_eq (tab : String) (cs : List PCall) :
+    printerText tab cs = ((Printer.new tab.toList).run cs).map fun p => p.flush.output := rfl
 
 /-! ## `splitAux` and ignored characters -/
 theorem splitAux_congr {Y Y' : List Char} (h : ∀ acc, splitAux isWs Y acc = splitAux isWs Y' acc) :
@@ -103,90 +131,106 @@ theorem wsOnly_repeat {tab : List Char} (ht : WsOnly tab) : ∀ n, WsOnly (pyRep
       · exact ht c hc
       · exact this c hc
 
-/-- a line buffer that "is empty" consists of ignored characters -/
-theorem empty_buffer_ws {p : Printer} (he : p.is_line_buffer_empty = true) (hf : ∀ f ∈ p.line_buffer, fragOK f = true)
-    (ht : WsOnly p.tab) : WsOnly p.line_buffer.flatten := by
+theorem dropWhile_nil_iff {α : Type} (q : α → Bool) : ∀ (l : List α), l.dropWhile q = [] ↔ l.all q = true
+  | [] => by simp
+  | a :: l => by
+      by_cases h : q a = true
+      · simp [List.dropWhile, h, dropWhile_nil_iff q l]
+      · simp [List.dropWhile, h]
+
+theorem mem_takeWhile_sat {α : Type} (q : α → Bool) : ∀ (l : List α) (a : α), a ∈ l.takeWhile q → q a = true
+  | [], _, h => by simp at h
+  | b :: l, a, h => by
+      by_cases hb : q b = true
+      · simp only [List.takeWhile, hb, List.mem_cons] at h
+        rcases h with rfl | h
+        · exact hb
+        · exact mem_takeWhile_sat q l a h
+      · simp [List.takeWhile, hb] at h
+
+theorem pyStrip_nil {cs s : List Char} (h : pyStrip cs s = []) : ∀ c ∈ s, cs.contains c = true := by
+  unfold pyStrip at h
+  have h1 : (s.dropWhile cs.contains).reverse.dropWhile cs.contains = [] := by simpa using h
+  have h2 := (dropWhile_nil_iff _ _).mp h1
+  intro c hc
+  have hs : s = s.takeWhile cs.contains ++ s.dropWhile cs.contains := (List.takeWhile_append_dropWhile).symm
+  rw [hs] at hc
+  rcases List.mem_append.mp hc with m | m
+  · exact mem_takeWhile_sat _ _ _ m
+  · exact List.all_eq_true.mp h2 c (by simpa using m)
+
+theorem blank_is_ws : ∀ c, blankChars.contains c = true → isWs c = true := by
+  intro c h
+  simp only [blankChars, List.contains_cons, List.contains_nil, Bool.or_false, Bool.or_eq_true, beq_iff_eq] at h
+  rcases h with rfl | rfl | rfl | rfl <;> decide
+
+/-- a line buffer that "is empty" (for the repaired test) consists of ignored characters — whatever its strings are -/
+theorem empty_buffer_ws {p : Printer} (he : p.is_line_buffer_empty = true) (ht : WsOnly p.tab) : WsOnly p.line_buffer.flatten := by
   intro c hc
   simp only [List.mem_flatten] at hc
   obtain ⟨s, hs, hcs⟩ := hc
   simp only [Printer.is_line_buffer_empty, List.all_eq_true] at he
   have h1 := he s hs
-  have h2 := hf s hs
-  by_cases hl : s.length = 0
-  · have : s = [] := List.length_eq_zero_iff.mp hl
-    subst this; simp at hcs
-  · by_cases hsp : pyIsSpaceL s = true
-    · simp only [pyIsSpaceL, Bool.and_eq_true] at hsp
-      have hall := hsp.2
-      have hr : (s.reverse.takeWhile pyIsSpace) = s.reverse := takeWhile_all _ _ (by simpa using hall)
-      simp only [fragOK, hr, List.all_eq_true] at h2
-      exact h2 c (by simpa using hcs)
-    · have hsp' : pyIsSpaceL s = false := by simpa using hsp
-      have hA : (s.length != 0) = true := by simpa using hl
-      rw [hA, hsp'] at h1
-      simp only [Bool.not_false, Bool.and_self, Bool.true_and, Bool.not_eq_eq_eq_not, Bool.not_true, Bool.or_eq_false_iff,
-        bne_eq_false_iff_eq] at h1
-      rw [h1.2] at hcs
-      exact wsOnly_repeat ht _ c hcs
+  by_cases hsp : pyStrip blankChars s = []
+  · exact blank_is_ws c (pyStrip_nil hsp c hcs)
+  · have hA : (pyStrip blankChars s != []) = true := by simpa using hsp
+    rw [hA] at h1
+    simp only [Bool.true_and, Bool.not_eq_eq_eq_not, Bool.not_true, Bool.or_eq_false_iff, bne_eq_false_iff_eq] at h1
+    rw [h1.2] at hcs
+    exact wsOnly_repeat ht _ c hcs
 
-/-- what `flush` drops (`rstrip` of the last string) consists of ignored characters -/
-theorem flushed_split : ∀ (buf : List (List Char)), (∀ f ∈ buf, fragOK f = true) →
-    ∃ trail, WsOnly trail ∧ buf.flatten = flushed buf ++ trail
-  | [], _ => ⟨[], by simp [WsOnly], by simp [flushed]⟩
-  | [s], h => by
-      refine ⟨(s.reverse.takeWhile pyIsSpace).reverse, ?_, ?_⟩
-      · have := h s (by simp)
-        simp only [fragOK, List.all_eq_true] at this
-        intro c hc
-        exact this c (by simpa using hc)
-      · simp only [List.flatten_cons, List.flatten_nil, List.append_nil, flushed, pyRstrip]
-        rw [← List.reverse_append, List.takeWhile_append_dropWhile, List.reverse_reverse]
-  | s :: t :: r, h => by
-      obtain ⟨trail, h1, h2⟩ := flushed_split (t :: r) (fun f hf => h f (by simp [hf]))
-      refine ⟨trail, h1, ?_⟩
-      simp only [List.flatten_cons] at h2 ⊢
-      rw [h2]; simp [flushed]
+theorem flushed_snoc : ∀ (pre : List (List Char)) (L : List Char), flushed (pre ++ [L]) = pre.flatten ++ pyRstrip L
+  | [], L => by simp [flushed]
+  | [a], L => by simp [flushed]
+  | a :: b :: pre, L => by
+      have := flushed_snoc (b :: pre) L
+      simp only [List.cons_append] at this ⊢
+      simp [flushed, this]
 
-structure Inv (tab : List Char) (p : Printer) (W : List Char) : Prop where
+/-- what `flush` drops (`rstrip` of the LAST string of the buffer) consists of ignored characters when that string is `fragOK` -/
+theorem flushed_split {buf : List (List Char)} {L : List Char} (hb : buf = [] ∨ ∃ pre, buf = pre ++ [L]) (hL : fragOK L = true) :
+    ∃ trail, WsOnly trail ∧ buf.flatten = flushed buf ++ trail := by
+  rcases hb with rfl | ⟨pre, rfl⟩
+  · exact ⟨[], by simp [WsOnly], by simp [flushed]⟩
+  · refine ⟨(L.reverse.takeWhile pyIsSpace).reverse, ?_, ?_⟩
+    · simp only [fragOK, List.all_eq_true] at hL
+      intro c hc
+      exact hL c (by simpa using hc)
+    · rw [flushed_snoc]
+      simp only [List.flatten_append, List.flatten_cons, List.flatten_nil, List.append_nil, pyRstrip, List.append_assoc]
+      rw [← List.reverse_append, List.takeWhile_append_dropWhile, List.reverse_reverse]
+
+/-- `W`: the characters written so far; `L`: the last line written (the last string of the buffer, unless it is empty) -/
+structure Inv (tab : List Char) (p : Printer) (W L : List Char) : Prop where
   tab_eq : p.tab = tab
   start : LineStart p.output
   toks : ∀ X, splitWs isWs (p.output ++ p.line_buffer.flatten ++ X) = splitWs isWs (W ++ X)
   ind : WsOnly p.current_indentation
-  frags : ∀ f ∈ p.line_buffer, fragOK f = true
+  last : p.line_buffer = [] ∨ ∃ pre, p.line_buffer = pre ++ [L]
 
-theorem writeLine_inv {tab : List Char} (ht : WsOnly tab) {p : Printer} {W : List Char} (h : Inv tab p W) {l : List Char}
-    (hl : fragOK l = true) : Inv tab (p.writeLine l) (W ++ l) := by
-  unfold Printer.writeLine
+theorem writeLine_inv {tab : List Char} (ht : WsOnly tab) {p : Printer} {W L : List Char} (h : Inv tab p W L) (l : List Char) :
+    Inv tab (p.writeLine l) (W ++ l) l := by
+  rw [writeLine_eq]
   by_cases he : p.is_line_buffer_empty = true
   · simp only [he, ↓reduceIte]
-    refine ⟨h.tab_eq, h.start, ?_, h.ind, ?_⟩
-    · intro X
-      have hb := empty_buffer_ws he h.frags (h.tab_eq ▸ ht)
-      have := h.toks (l ++ X)
-      simp only [List.flatten_cons, List.flatten_nil, List.append_nil, List.append_assoc, List.singleton_append] at this ⊢
-      rw [← this]
-      have sw := lineStart_swap h.start h.ind hb (l ++ X)
-      simpa [List.append_assoc] using sw
-    · intro f hf
-      simp only [List.cons_append, List.nil_append, List.mem_cons, List.not_mem_nil, or_false] at hf
-      rcases hf with rfl | rfl
-      · exact wsOnly_fragOK h.ind
-      · exact hl
+    refine ⟨h.tab_eq, h.start, ?_, h.ind, Or.inr ⟨[p.current_indentation], rfl⟩⟩
+    intro X
+    have hb := empty_buffer_ws he (h.tab_eq ▸ ht)
+    have := h.toks (l ++ X)
+    simp only [List.flatten_cons, List.flatten_nil, List.append_nil, List.append_assoc, List.singleton_append] at this ⊢
+    rw [← this]
+    have sw := lineStart_swap h.start h.ind hb (l ++ X)
+    simpa [List.append_assoc] using sw
   · simp only [he, Bool.false_eq_true, ↓reduceIte]
-    refine ⟨h.tab_eq, h.start, ?_, h.ind, ?_⟩
-    · intro X
-      have := h.toks (l ++ X)
-      simpa [List.append_assoc] using this
-    · intro f hf
-      simp only [List.mem_append, List.mem_cons, List.not_mem_nil, or_false] at hf
-      rcases hf with hf | rfl
-      · exact h.frags f hf
-      · exact hl
+    refine ⟨h.tab_eq, h.start, ?_, h.ind, Or.inr ⟨p.line_buffer, rfl⟩⟩
+    intro X
+    have := h.toks (l ++ X)
+    simpa [List.append_assoc] using this
 
-theorem newline_inv {tab : List Char} {p : Printer} {W : List Char} (h : Inv tab p W) :
-    Inv tab p.newline (W ++ ['\n']) := by
-  obtain ⟨trail, ht1, ht2⟩ := flushed_split p.line_buffer h.frags
-  refine ⟨h.tab_eq, Or.inr ⟨_, rfl⟩, ?_, h.ind, by simp [Printer.newline, Printer.flush]⟩
+theorem newline_inv {tab : List Char} {p : Printer} {W L : List Char} (h : Inv tab p W L) (hL : fragOK L = true) :
+    Inv tab p.newline (W ++ ['\n']) L := by
+  obtain ⟨trail, ht1, ht2⟩ := flushed_split h.last hL
+  refine ⟨h.tab_eq, Or.inr ⟨_, rfl⟩, ?_, h.ind, Or.inl (by simp [Printer.newline, Printer.flush])⟩
   intro X
   have := h.toks ('\n' :: X)
   simp only [Printer.newline, Printer.flush, List.flatten_nil, List.append_nil, List.append_assoc, List.singleton_append]
@@ -207,39 +251,52 @@ theorem pySplitNl_spec : ∀ (msg : List Char), ∃ l0 ls, pySplitNl msg = l0 ::
         exact ⟨[], l :: ls, by simp [pySplitNl, h1], by simp [← h2]⟩
       · exact ⟨c :: l, ls, by simp [pySplitNl, h1, hc], by simp [← h2]⟩
 
-theorem fold_inv {tab : List Char} (ht : WsOnly tab) : ∀ (ls : List (List Char)) (p : Printer) (W : List Char), Inv tab p W →
-    (∀ l ∈ ls, fragOK l = true) →
-    Inv tab (ls.foldl (fun p l => p.newline.writeLine l) p) (W ++ ls.flatMap (fun l => '\n' :: l))
-  | [], p, W, h, _ => by simpa using h
-  | l :: ls, p, W, h, hl => by
-      have h1 := writeLine_inv ht (newline_inv h) (hl l (by simp))
-      have h2 := fold_inv ht ls _ _ h1 (fun x hx => hl x (by simp [hx]))
+theorem getLast_cons_getD {α : Type} (a : α) (l : List α) (d : α) : ((a :: l).getLast?).getD d = (l.getLast?).getD a := by
+  cases l with
+  | nil => simp
+  | cons b r =>
+    rw [List.getLast?_cons_cons]
+    cases h : (b :: r).getLast? with
+    | none => simp at h
+    | some x => rfl
+
+theorem fold_inv {tab : List Char} (ht : WsOnly tab) : ∀ (ls : List (List Char)) (p : Printer) (W L : List Char), Inv tab p W L →
+    (∀ l ∈ (L :: ls).dropLast, fragOK l = true) →
+    Inv tab (ls.foldl (fun p l => p.newline.writeLine l) p) (W ++ ls.flatMap (fun l => '\n' :: l)) ((ls.getLast?).getD L)
+  | [], p, W, L, h, _ => by simpa using h
+  | l :: ls, p, W, L, h, hl => by
+      have hL : fragOK L = true := hl L (by simp [List.dropLast])
+      have h1 := writeLine_inv ht (newline_inv h hL) l
+      have h2 := fold_inv ht ls _ _ _ h1 (fun x hx => hl x (by
+        cases ls with
+        | nil => simp [List.dropLast] at hx
+        | cons b r => simp only [List.dropLast_cons₂] at hx ⊢; exact List.mem_cons_of_mem _ hx))
+      rw [getLast_cons_getD]
       simpa [List.append_assoc] using h2
 
-theorem write_inv {tab : List Char} (ht : WsOnly tab) {p : Printer} {W : List Char} (h : Inv tab p W) {msg : String}
-    (hm : strOK msg = true) : Inv tab (p.write msg.toList) (W ++ msg.toList) := by
+theorem write_inv {tab : List Char} (ht : WsOnly tab) {p : Printer} {W L : List Char} (h : Inv tab p W L) {msg : String}
+    (hm : linesOK msg = true) : Inv tab (p.write msg.toList) (W ++ msg.toList) (lastLine msg.toList) := by
   obtain ⟨l0, ls, h1, h2⟩ := pySplitNl_spec msg.toList
-  simp only [strOK, h1, List.all_cons, Bool.and_eq_true, List.all_eq_true] at hm
-  unfold Printer.write
-  rw [h1]
-  have := fold_inv ht ls _ _ (writeLine_inv ht h hm.1) hm.2
-  rw [h2]
+  simp only [linesOK, h1, List.all_eq_true] at hm
+  unfold lastLine
+  rw [write_eq, h1, getLast_cons_getD, h2]
+  have := fold_inv ht ls _ _ _ (writeLine_inv ht h l0) hm
   simpa [List.append_assoc] using this
 
-theorem indent_inv {tab : List Char} (ht : WsOnly tab) {p : Printer} {W : List Char} (h : Inv tab p W) : Inv tab p.indent W := by
-  refine ⟨h.tab_eq, h.start, h.toks, ?_, h.frags⟩
+theorem indent_inv {tab : List Char} (ht : WsOnly tab) {p : Printer} {W L : List Char} (h : Inv tab p W L) : Inv tab p.indent W L := by
+  refine ⟨h.tab_eq, h.start, h.toks, ?_, h.last⟩
   intro c hc
   simp only [Printer.indent, List.mem_append] at hc
   rcases hc with hc | hc
   · exact h.ind c hc
   · exact ht c (h.tab_eq ▸ hc)
 
-theorem deindent_inv {tab : List Char} {p p' : Printer} {W : List Char} (h : Inv tab p W) (hd : p.deindent = some p') :
-    Inv tab p' W := by
+theorem deindent_inv {tab : List Char} {p p' : Printer} {W L : List Char} (h : Inv tab p W L) (hd : p.deindent = some p') :
+    Inv tab p' W L := by
   unfold Printer.deindent at hd
   split at hd
   · injection hd with hd; subst hd
-    refine ⟨h.tab_eq, h.start, h.toks, ?_, h.frags⟩
+    refine ⟨h.tab_eq, h.start, h.toks, ?_, h.last⟩
     intro c hc
     simp only at hc
     split at hc
@@ -247,35 +304,39 @@ theorem deindent_inv {tab : List Char} {p p' : Printer} {W : List Char} (h : Inv
     · exact h.ind c ((List.take_sublist _ _).subset hc)
   · cases hd
 
-theorem run_inv {tab : List Char} (ht : WsOnly tab) : ∀ (cs : List PCall) (p p' : Printer) (W : List Char), Inv tab p W →
-    callsOK cs → p.run cs = some p' → Inv tab p' (W ++ written cs)
-  | [], p, p', W, h, _, hr => by
-      simp only [Printer.run, Option.some.injEq] at hr; subst hr; simpa [written] using h
-  | .write s :: cs, p, p', W, h, hok, hr => by
-      simp only [Printer.run] at hr
+theorem run_inv {tab : List Char} (ht : WsOnly tab) : ∀ (cs : List PCall) (p p' : Printer) (W L : List Char), Inv tab p W L →
+    callsOK cs → p.run cs = some p' → Inv tab p' (W ++ written cs) (lastLineOf cs L)
+  | [], p, p', W, L, h, _, hr => by
+      simp only [run_nil, Option.some.injEq] at hr; subst hr; simpa [written, lastLineOf] using h
+  | .write s :: cs, p, p', W, L, h, hok, hr => by
+      rw [run_write] at hr
       have h1 := write_inv ht h (hok s (by simp))
-      have h2 := run_inv ht cs _ _ _ h1 (fun x hx => hok x (by simp [hx])) hr
-      simpa [written, List.append_assoc] using h2
-  | .indent :: cs, p, p', W, h, hok, hr => by
-      simp only [Printer.run] at hr
-      have h2 := run_inv ht cs _ _ _ (indent_inv ht h) (fun x hx => hok x (by simp [hx])) hr
-      simpa [written] using h2
-  | .deindent :: cs, p, p', W, h, hok, hr => by
-      simp only [Printer.run, Option.bind_eq_some_iff] at hr
+      have h2 := run_inv ht cs _ _ _ _ h1 (fun x hx => hok x (by simp [hx])) hr
+      simpa [written, lastLineOf, List.append_assoc] using h2
+  | .indent :: cs, p, p', W, L, h, hok, hr => by
+      rw [run_indent] at hr
+      have h2 := run_inv ht cs _ _ _ _ (indent_inv ht h) (fun x hx => hok x (by simp [hx])) hr
+      simpa [written, lastLineOf] using h2
+  | .deindent :: cs, p, p', W, L, h, hok, hr => by
+      rw [run_deindent] at hr
+      simp only [Option.bind_eq_some_iff] at hr
       obtain ⟨q, hq, hr⟩ := hr
-      have h2 := run_inv ht cs _ _ _ (deindent_inv h hq) (fun x hx => hok x (by simp [hx])) hr
-      simpa [written] using h2
+      have h2 := run_inv ht cs _ _ _ _ (deindent_inv h hq) (fun x hx => hok x (by simp [hx])) hr
+      simpa [written, lastLineOf] using h2
 
-/-- **`Printer` does not change the tokens**: if `tab` consists of ignored characters and the trailing Python-whitespace of every
-line of every written string is ignored by the grammar, the text is lexed like the concatenation of the written strings -/
-theorem printer_tokens (tab : String) (cs : List PCall) (ht : WsOnly tab.toList) (hok : callsOK cs) (text : List Char)
+/-- **`Printer` does not change the tokens**: if `tab` consists of ignored characters and every line that a written string ends
+with a newline, and the last line written, has no trailing Python-whitespace that the grammar does not ignore, the text is lexed
+like the concatenation of the written strings -/
+theorem printer_tokens (tab : String) (cs : List PCall) (ht : WsOnly tab.toList) (hok : callsOK cs)
+    (hlast : fragOK (lastLineOf cs []) = true) (text : List Char)
     (h : printerText tab cs = some text) : lexTokens text = lexTokens (written cs) := by
-  simp only [printerText, Option.map_eq_some_iff] at h
+  rw [printerText_eq] at h
+  simp only [Option.map_eq_some_iff] at h
   obtain ⟨p, hr, rfl⟩ := h
-  have h0 : Inv tab.toList (Printer.new tab.toList) [] :=
-    ⟨rfl, Or.inl rfl, fun X => rfl, by simp [Printer.new, WsOnly], by simp [Printer.new]⟩
-  have hi := run_inv ht cs _ _ _ h0 hok hr
-  obtain ⟨trail, ht1, ht2⟩ := flushed_split p.line_buffer hi.frags
+  have h0 : Inv tab.toList (Printer.new tab.toList) [] [] :=
+    ⟨rfl, Or.inl rfl, fun X => rfl, by simp [Printer.new, WsOnly], Or.inl rfl⟩
+  have hi := run_inv ht cs _ _ _ _ h0 hok hr
+  obtain ⟨trail, ht1, ht2⟩ := flushed_split hi.last hlast
   have := hi.toks []
   simp only [List.nil_append, List.append_nil] at this
   rw [lexTokens, lexTokens, ← this, ht2]
@@ -283,15 +344,13 @@ theorem printer_tokens (tab : String) (cs : List PCall) (ht : WsOnly tab.toList)
   have e := splitAux_congr (Y := trail) (Y' := []) (fun acc => splitAux_ws_end trail ht1 acc) (p.output ++ flushed p.line_buffer) []
   simpa using e.symm
 
+/-- the condition on the lines is needed for `Printer` as such: `write('x\xa0\ny')` prints `x\ny` (`flush` `rstrip`s `'x\xa0'`), one
+token `x` where the written string has the token `x\xa0`.  Not reachable from `parse_database`: see `encode_calls_ok` -/
+theorem printer_rstrip_residual :
+    printerText "   " [.write "x\u00a0\ny"] = some "x\ny".toList ∧ linesOK "x\u00a0\ny" = false ∧
+    lexTokens "x\ny".toList ≠ lexTokens (written [.write "x\u00a0\ny"]) := by decide
+
 /-! ## the calls of the translated `Encoder`: every written string is harmless, every `indent` is closed -/
-/-- a lexeme that does not END in a character `str.isspace` accepts (so `rstrip` leaves it alone and `is_line_buffer_empty` does
-not take it for indentation) -/
-def tokB (t : String) : Bool := lexB t && !(match t.toList.reverse with | c :: _ => pyIsSpace c | [] => true)
-def Tok (t : String) : Prop := tokB t = true
-
-theorem Tok.lex {t : String} (h : Tok t) : Lex t := by
-  simp only [Tok, tokB, Bool.and_eq_true] at h; exact h.1
-
 theorem pySplitNl_noNl : ∀ (l : List Char), '\n' ∉ l → pySplitNl l = [l]
   | [], _ => rfl
   | c :: cs, h => by
@@ -299,22 +358,13 @@ theorem pySplitNl_noNl : ∀ (l : List Char), '\n' ∉ l → pySplitNl l = [l]
       have := pySplitNl_noNl cs (fun m => h (by simp [m]))
       simp [pySplitNl, this, hc]
 
-theorem fragOK_of_last {l : List Char} (h : (match l.reverse with | c :: _ => pyIsSpace c | [] => true) = false) :
-    fragOK l = true := by
-  unfold fragOK
-  cases hr : l.reverse with
-  | nil => simp
-  | cons c r =>
-    rw [hr] at h
-    simp only at h
-    simp [List.takeWhile, h]
+/-- a string without a newline ends no line -/
+theorem linesOK_noNl {t : String} (hn : '\n' ∉ t.toList) : linesOK t = true := by
+  simp [linesOK, pySplitNl_noNl _ hn]
 
-theorem tok_strOK {t : String} (h : Tok t) : strOK t = true := by
-  have hl := h.lex
-  have hn : '\n' ∉ t.toList := fun m => by have := hl.no_ws _ m; simp [ws_nl] at this
-  simp only [strOK, pySplitNl_noNl _ hn, List.all_cons, List.all_nil, Bool.and_true]
-  simp only [Tok, tokB, Bool.and_eq_true, Bool.not_eq_eq_eq_not, Bool.not_true] at h
-  exact fragOK_of_last h.2
+/-- a lexeme contains no newline (the grammar ignores it) -/
+theorem lex_linesOK {t : String} (h : Lex t) : linesOK t = true :=
+  linesOK_noNl (fun m => by have := h.no_ws _ m; simp [ws_nl] at this)
 
 /-- the state `Printer.run` starts from and returns to: `current_indentation` is empty when `tab` is -/
 def IndOK (p : Printer) : Prop := p.tab = [] → p.current_indentation = []
@@ -326,18 +376,18 @@ def Bal (cs : List PCall) : Prop :=
 def Good (cs : List PCall) : Prop := callsOK cs ∧ Bal cs
 
 theorem run_append : ∀ (a b : List PCall) (p : Printer), p.run (a ++ b) = (p.run a).bind fun q => q.run b
-  | [], b, p => by simp [Printer.run]
-  | .write s :: a, b, p => by simp [Printer.run, run_append a b]
-  | .indent :: a, b, p => by simp [Printer.run, run_append a b]
+  | [], b, p => by simp [run_nil]
+  | .write s :: a, b, p => by simp only [List.cons_append, run_write, run_append a b]
+  | .indent :: a, b, p => by simp only [List.cons_append, run_indent, run_append a b]
   | .deindent :: a, b, p => by
-      simp only [List.cons_append, Printer.run]
+      simp only [List.cons_append, run_deindent]
       cases p.deindent with
       | none => simp
       | some q => simp [run_append a b]
 
 theorem writeLine_keeps (p : Printer) (l : List Char) :
     (p.writeLine l).tab = p.tab ∧ (p.writeLine l).current_indentation = p.current_indentation := by
-  unfold Printer.writeLine; split <;> simp
+  rw [writeLine_eq]; split <;> simp
 
 theorem newline_keeps (p : Printer) : p.newline.tab = p.tab ∧ p.newline.current_indentation = p.current_indentation := by
   simp [Printer.newline, Printer.flush]
@@ -355,7 +405,7 @@ theorem fold_keeps : ∀ (ls : List (List Char)) (p : Printer),
 
 theorem write_keeps (p : Printer) (msg : List Char) :
     (p.write msg).tab = p.tab ∧ (p.write msg).current_indentation = p.current_indentation := by
-  unfold Printer.write
+  rw [write_eq]
   split
   · simp
   · next l ls _ =>
@@ -365,9 +415,9 @@ theorem write_keeps (p : Printer) (msg : List Char) :
 
 theorem Good.nil : Good [] := ⟨fun s hs => by simp at hs, fun p _ => ⟨p, rfl, rfl, rfl⟩⟩
 
-theorem Good.write {s : String} (h : strOK s = true) : Good [.write s] :=
+theorem Good.write {s : String} (h : linesOK s = true) : Good [.write s] :=
   ⟨fun x hx => by simp at hx; subst hx; exact h,
-   fun p _ => ⟨p.write s.toList, by simp [Printer.run], (write_keeps p _).1, (write_keeps p _).2⟩⟩
+   fun p _ => ⟨p.write s.toList, by simp [run_write, run_nil], (write_keeps p _).1, (write_keeps p _).2⟩⟩
 
 theorem Good.append {a b : List PCall} (ha : Good a) (hb : Good b) : Good (a ++ b) := by
   refine ⟨fun s hs => ?_, fun p hp => ?_⟩
@@ -378,7 +428,7 @@ theorem Good.append {a b : List PCall} (ha : Good a) (hb : Good b) : Good (a ++ 
     obtain ⟨r, h4, h5, h6⟩ := hb.2 q (fun e => by rw [h3]; exact hp (h2 ▸ e))
     exact ⟨r, by rw [run_append, h1]; exact h4, by rw [h5, h2], by rw [h6, h3]⟩
 
-theorem Good.cons_write {s : String} {a : List PCall} (h : strOK s = true) (ha : Good a) : Good (.write s :: a) :=
+theorem Good.cons_write {s : String} {a : List PCall} (h : linesOK s = true) (ha : Good a) : Good (.write s :: a) :=
   Good.append (Good.write h) ha
 
 /-- `with self.indentation(): a` -/
@@ -395,7 +445,7 @@ theorem Good.within {a : List PCall} (ha : Good a) : Good (.indent :: (a ++ [.de
     have hlen : q.tab.length ≤ q.current_indentation.length := by rw [hq, hqi]; simp
     refine ⟨{ q with current_indentation := if q.tab.length = 0 then [] else
         q.current_indentation.take (q.current_indentation.length - q.tab.length) }, ?_, hq, ?_⟩
-    · simp only [Printer.run, run_append, h1, Option.bind_some, Printer.deindent, hlen, ↓reduceIte]
+    · simp only [run_indent, run_append, h1, Option.bind_some, run_deindent, run_nil, Printer.deindent, hlen, ↓reduceIte]
     · simp only
       split
       · next h0 =>
@@ -408,28 +458,28 @@ macro "good_step" : tactic =>
     | assumption
     | exact Good.nil
     | exact Good.write (by decide)
-    | exact Good.write (tok_strOK (by assumption))
+    | exact Good.write (lex_linesOK (by assumption))
     | (apply Good.cons_write (by decide))
-    | (apply Good.cons_write (tok_strOK (by assumption)))
+    | (apply Good.cons_write (lex_linesOK (by assumption)))
     | apply Good.append)
 macro "good" : tactic => `(tactic| repeat' good_step)
 
 mutual
-theorem visit_Term_good (self : Encoder) : ∀ (t : MTerm), (∀ x ∈ printTerm t, Tok x) → Good (visit_Term self t)
+theorem visit_Term_good (self : Encoder) : ∀ (t : MTerm), (∀ x ∈ printTerm t, Lex x) → Good (visit_Term self t)
   | .mv n, h => by
-      have hn : Tok n := h n (by simp [printTerm])
+      have hn : Lex n := h n (by simp [printTerm])
       simp only [visit_Term]; good
   | .app s [], h => by
-      have hs : Tok s := h s (by simp [printTerm])
+      have hs : Lex s := h s (by simp [printTerm])
       simp only [visit_Term, List.length_nil, beq_self_eq_true, ↓reduceIte]; good
   | .app s (a :: as), h => by
-      have hs : Tok s := h s (by simp [printTerm])
+      have hs : Lex s := h s (by simp [printTerm])
       have hL := term_for1_good self (a :: as) (fun x hx => h x (by simp [printTerm, hx]))
       have h1 := visit_Term_good self a (fun x hx => h x (by simp [printTerm, printTerms, hx]))
       have h2 := term_for1_good self as (fun x hx => h x (by simp [printTerm, printTerms, hx]))
       simp only [visit_Term, List.length_cons, Nat.add_eq_zero_iff, Nat.succ_ne_self, and_false, beq_iff_eq, ↓reduceIte]
       good
-theorem term_for1_good (self : Encoder) : ∀ (ts : List MTerm), (∀ x ∈ printTerms ts, Tok x) →
+theorem term_for1_good (self : Encoder) : ∀ (ts : List MTerm), (∀ x ∈ printTerms ts, Lex x) →
     Good (postvisit_application_for1 self ts)
   | [], _ => by simp only [postvisit_application_for1]; good
   | t :: ts, h => by
@@ -438,30 +488,30 @@ theorem term_for1_good (self : Encoder) : ∀ (ts : List MTerm), (∀ x ∈ prin
       simp only [postvisit_application_for1]; good
 end
 
-theorem const_for1_good (self : Encoder) : ∀ (cs : List String), (∀ x ∈ cs, Tok x) → Good (postvisit_constant_statement_for1 self cs)
+theorem const_for1_good (self : Encoder) : ∀ (cs : List String), (∀ x ∈ cs, Lex x) → Good (postvisit_constant_statement_for1 self cs)
   | [], _ => by simp only [postvisit_constant_statement_for1]; good
   | c :: cs, h => by
-      have hc : Tok c := h c (by simp)
+      have hc : Lex c := h c (by simp)
       have h2 := const_for1_good self cs (fun x hx => h x (by simp [hx]))
       simp only [postvisit_constant_statement_for1]; good
 
-theorem var_for1_good (self : Encoder) : ∀ (vs : List String), (∀ x ∈ vs, Tok x) →
+theorem var_for1_good (self : Encoder) : ∀ (vs : List String), (∀ x ∈ vs, Lex x) →
     Good (postvisit_variable_statement_for1 self (vs.map MTerm.mv))
   | [], _ => by simp only [List.map_nil, postvisit_variable_statement_for1]; good
   | c :: cs, h => by
-      have hc : Tok c := h c (by simp)
+      have hc : Lex c := h c (by simp)
       have h2 := var_for1_good self cs (fun x hx => h x (by simp [hx]))
       simp only [List.map_cons, postvisit_variable_statement_for1, visit_Term]; good
 
-theorem disj_for1_good (self : Encoder) : ∀ (vs : List String), (∀ x ∈ vs, Tok x) →
+theorem disj_for1_good (self : Encoder) : ∀ (vs : List String), (∀ x ∈ vs, Lex x) →
     Good (postvisit_disjoint_statement_for1 self (vs.map MTerm.mv))
   | [], _ => by simp only [List.map_nil, postvisit_disjoint_statement_for1]; good
   | c :: cs, h => by
-      have hc : Tok c := h c (by simp)
+      have hc : Lex c := h c (by simp)
       have h2 := disj_for1_good self cs (fun x hx => h x (by simp [hx]))
       simp only [List.map_cons, postvisit_disjoint_statement_for1, visit_Term]; good
 
-theorem terms_for1_good (self : Encoder) : ∀ (ts : List MTerm), (∀ x ∈ printTerms ts, Tok x) →
+theorem terms_for1_good (self : Encoder) : ∀ (ts : List MTerm), (∀ x ∈ printTerms ts, Lex x) →
     Good (postvisit_structured_statement_for1 self ts)
   | [], _ => by simp only [postvisit_structured_statement_for1]; good
   | t :: ts, h => by
@@ -469,47 +519,23 @@ theorem terms_for1_good (self : Encoder) : ∀ (ts : List MTerm), (∀ x ∈ pri
       have h2 := terms_for1_good self ts (fun x hx => h x (by simp [printTerms, hx]))
       simp only [postvisit_structured_statement_for1]; good
 
-/-- the proof string `' '.join(pf)`: one line, ending like its last token -/
-theorem join_strOK (pf : List String) (h : ∀ x ∈ pf, Tok x) : strOK (pyJoin " " pf) = true := by
+/-- the proof string `' '.join(pf)` contains no newline -/
+theorem join_linesOK (pf : List String) (h : ∀ x ∈ pf, Lex x) : linesOK (pyJoin " " pf) = true := by
+  apply linesOK_noNl
   cases pf with
-  | nil => simp [strOK, join_nil, pySplitNl, fragOK]
+  | nil => simp [join_nil]
   | cons t rest =>
-    have hn : '\n' ∉ (pyJoin " " (t :: rest)).toList := by
-      rw [join_chars]
-      intro m
-      simp only [List.mem_append, List.mem_flatMap, List.mem_cons] at m
-      rcases m with m | ⟨x, hx, m | m⟩
-      · have := (h t (by simp)).lex.no_ws _ m; simp [ws_nl] at this
-      · exact absurd m (by decide)
-      · have := (h x (by simp [hx])).lex.no_ws _ m; simp [ws_nl] at this
-    simp only [strOK, pySplitNl_noNl _ hn, List.all_cons, List.all_nil, Bool.and_true]
-    apply fragOK_of_last
-    -- the last character is the last character of the last token
-    have hlast : ∀ (u : String) (pre : List Char), Tok u →
-        (match (pre ++ u.toList).reverse with | c :: _ => pyIsSpace c | [] => true) = false := by
-      intro u pre hu
-      simp only [Tok, tokB, Bool.and_eq_true, Bool.not_eq_eq_eq_not, Bool.not_true] at hu
-      have hne := (Tok.lex (by simp [Tok, tokB, hu.1, hu.2]) : Lex u).ne_nil
-      rw [List.reverse_append]
-      cases hr : u.toList.reverse with
-      | nil => exact absurd (by simpa using hr) hne
-      | cons c r => rw [hr] at hu; simpa using hu.2
     rw [join_chars]
-    cases hrest : rest.reverse with
-    | nil =>
-      have : rest = [] := by simpa using hrest
-      subst this
-      simpa using hlast t [] (h t (by simp))
-    | cons u pre =>
-      have e : rest = pre.reverse ++ [u] := by
-        have := congrArg List.reverse hrest; simpa using this
-      subst e
-      have := hlast u (t.toList ++ (List.flatMap (fun x => ' ' :: x.toList) pre.reverse ++ [' '])) (h u (by simp))
-      simpa [List.flatMap_append, List.append_assoc] using this
+    intro m
+    simp only [List.mem_append, List.mem_flatMap, List.mem_cons] at m
+    rcases m with m | ⟨x, hx, m | m⟩
+    · have := (h t (by simp)).no_ws _ m; simp [ws_nl] at this
+    · exact absurd m (by decide)
+    · have := (h x (by simp [hx])).no_ws _ m; simp [ws_nl] at this
 
 mutual
 /-- the calls of the translated `Encoder` for a statement of the model are harmless for `Printer` and balanced -/
-theorem visit_Stmt_good (self : Encoder) (ho : self.omit_proof = false) : ∀ (s : MStmt), (∀ x ∈ printStmt s, Tok x) →
+theorem visit_Stmt_good (self : Encoder) (ho : self.omit_proof = false) : ∀ (s : MStmt), (∀ x ∈ printStmt s, Lex x) →
     Good (visit_Stmt self (ofStmt s))
   | .const cs, h => by
       have h1 := const_for1_good self cs (fun x hx => h x (by simp [printStmt, hx]))
@@ -521,36 +547,36 @@ theorem visit_Stmt_good (self : Encoder) (ho : self.omit_proof = false) : ∀ (s
       have h1 := disj_for1_good self vs (fun x hx => h x (by simp [printStmt, hx]))
       simp only [ofStmt, visit_Stmt]; good
   | .float l tc v, h => by
-      have hl : Tok l := h l (by simp [printStmt])
+      have hl : Lex l := h l (by simp [printStmt])
       have h1 := visit_Term_good self (MTerm.app tc []) (fun x hx => h x (by
         simp [printTerm] at hx; subst hx; simp [printStmt]))
       have h2 := visit_Term_good self (MTerm.mv v) (fun x hx => h x (by
         simp [printTerm] at hx; subst hx; simp [printStmt]))
       simp only [ofStmt, visit_Stmt, postvisit_structured_statement, get_statement_type, isFloatingStatement,
-        isProvableStatement, Stmt.label, hl.lex.truthy, ↓reduceIte, Bool.false_eq_true]
+        isProvableStatement, Stmt.label, hl.truthy, ↓reduceIte, Bool.false_eq_true]
       simp only [Stmt.terms, postvisit_structured_statement_for1]
       good
   | .ess l ts, h => by
-      have hl : Tok l := h l (by simp [printStmt])
+      have hl : Lex l := h l (by simp [printStmt])
       have h1 := terms_for1_good self ts (fun x hx => h x (by simp [printStmt, hx]))
       simp only [ofStmt, visit_Stmt, postvisit_structured_statement, get_statement_type, isFloatingStatement,
-        isEssentialStatement, isProvableStatement, Stmt.label, Stmt.terms, hl.lex.truthy, ↓reduceIte, Bool.false_eq_true]
+        isEssentialStatement, isProvableStatement, Stmt.label, Stmt.terms, hl.truthy, ↓reduceIte, Bool.false_eq_true]
       good
   | .ax l ts, h => by
-      have hl : Tok l := h l (by simp [printStmt])
+      have hl : Lex l := h l (by simp [printStmt])
       have h1 := terms_for1_good self ts (fun x hx => h x (by simp [printStmt, hx]))
       simp only [ofStmt, visit_Stmt, postvisit_structured_statement, get_statement_type, isFloatingStatement,
-        isEssentialStatement, isAxiomaticStatement, isProvableStatement, Stmt.label, Stmt.terms, hl.lex.truthy, ↓reduceIte,
+        isEssentialStatement, isAxiomaticStatement, isProvableStatement, Stmt.label, Stmt.terms, hl.truthy, ↓reduceIte,
         Bool.false_eq_true]
       good
   | .prov l ts pf, h => by
-      have hl : Tok l := h l (by simp [printStmt])
+      have hl : Lex l := h l (by simp [printStmt])
       have h1 := terms_for1_good self ts (fun x hx => h x (by simp [printStmt, hx]))
-      have hj : strOK (pyJoin " " pf) = true := join_strOK pf (fun x hx => h x (by simp [printStmt, hx]))
+      have hj : linesOK (pyJoin " " pf) = true := join_linesOK pf (fun x hx => h x (by simp [printStmt, hx]))
       have hj' : Good [PCall.write (pyJoin " " pf)] := Good.write hj
       simp only [ofStmt, visit_Stmt, postvisit_structured_statement, get_statement_type, isFloatingStatement,
         isEssentialStatement, isAxiomaticStatement, isProvableStatement, Stmt.label, Stmt.terms, Stmt.proof, ho,
-        hl.lex.truthy, ↓reduceIte, Bool.false_eq_true]
+        hl.truthy, ↓reduceIte, Bool.false_eq_true]
       good
   | .block ss, h => by
       have h1 := block_for1_good self ho ss (ofStmts ss) 0 (fun x hx => h x (by simp [printStmt, hx]))
@@ -561,7 +587,7 @@ theorem visit_Stmt_good (self : Encoder) (ho : self.omit_proof = false) : ∀ (s
           [PCall.deindent])) ++ [PCall.write "$}"] := by simp
       rw [e]; good
 theorem block_for1_good (self : Encoder) (ho : self.omit_proof = false) : ∀ (ss : List MStmt) (all : List Stmt) (i : Nat),
-    (∀ x ∈ printStmts ss, Tok x) → Good (postvisit_block_for1 self all (ofStmts ss) i)
+    (∀ x ∈ printStmts ss, Lex x) → Good (postvisit_block_for1 self all (ofStmts ss) i)
   | [], all, i, _ => by simp only [ofStmts, postvisit_block_for1]; good
   | s :: ss, all, i, h => by
       have h1 := visit_Stmt_good self ho s (fun x hx => h x (by simp [printStmts, hx]))
@@ -570,7 +596,7 @@ theorem block_for1_good (self : Encoder) (ho : self.omit_proof = false) : ∀ (s
       split <;> good
 end
 
-theorem db_for1_good (self : Encoder) (ho : self.omit_proof = false) : ∀ (ss : List MStmt), (∀ x ∈ printStmts ss, Tok x) →
+theorem db_for1_good (self : Encoder) (ho : self.omit_proof = false) : ∀ (ss : List MStmt), (∀ x ∈ printStmts ss, Lex x) →
     Good (postvisit_database_for1 self (ofStmts ss))
   | [], _ => by simp only [ofStmts, postvisit_database_for1]; good
   | s :: ss, h => by
@@ -578,29 +604,45 @@ theorem db_for1_good (self : Encoder) (ho : self.omit_proof = false) : ∀ (ss :
       have h2 := db_for1_good self ho ss (fun x hx => h x (by simp [printStmts, hx]))
       simp only [ofStmts, postvisit_database_for1]; good
 
-theorem encode_calls_ok (self : Encoder) (ho : self.omit_proof = false) (db : MDb) (h : ∀ x ∈ printDb db, Tok x) :
+theorem encode_calls_ok (self : Encoder) (ho : self.omit_proof = false) (db : MDb) (h : ∀ x ∈ printDb db, Lex x) :
     Good (encode self (ofDb db)) := by
   simpa [encode, visit_Database, ofDb] using db_for1_good self ho db h
 
-/-! ## the text -/
-theorem Tok.all_lex {ts : List String} (h : ∀ x ∈ ts, Tok x) : ∀ x ∈ ts, Lex x := fun x hx => (h x hx).lex
+/-! ## the last line the `Encoder` writes -/
+theorem lastLineOf_append : ∀ (a b : List PCall) (L : List Char), lastLineOf (a ++ b) L = lastLineOf b (lastLineOf a L)
+  | [], b, L => rfl
+  | .write s :: a, b, L => by simp [lastLineOf, lastLineOf_append a b]
+  | .indent :: a, b, L => by simp [lastLineOf, lastLineOf_append a b]
+  | .deindent :: a, b, L => by simp [lastLineOf, lastLineOf_append a b]
 
+/-- every statement of a database is followed by `self.write('\n')`: the last line written is empty -/
+theorem db_for1_last (self : Encoder) : ∀ (ss : List Stmt) (L : List Char), fragOK L = true →
+    fragOK (lastLineOf (postvisit_database_for1 self ss) L) = true
+  | [], L, h => by simpa [postvisit_database_for1, lastLineOf] using h
+  | s :: ss, L, _ => by
+      simp only [postvisit_database_for1, lastLineOf_append, lastLineOf]
+      exact db_for1_last self ss _ (by decide)
+
+theorem encode_last_line (self : Encoder) (db : Database) : fragOK (lastLineOf (encode self db) []) = true := by
+  simpa [encode, visit_Database] using db_for1_last self db.statements [] (by decide)
+
+/-! ## the text -/
 /-- **the text of the translated `Encoder` through `Printer`, for a database of the model**: it exists (no assert of `deindent`
 fails) and is lexed to the model's `printDb` — when `tab` consists of ignored characters, `omit_proof=False` and every string of the
-database is a lexeme that does not end in a character `str.isspace` accepts -/
+database is a lexeme -/
 theorem encode_text_tokens (self : Encoder) (ho : self.omit_proof = false) (htab : WsOnly self.tab.toList) (db : MDb)
-    (h : ∀ x ∈ printDb db, Tok x) :
+    (h : ∀ x ∈ printDb db, Lex x) :
     ∃ text, printerText self.tab (encode self (ofDb db)) = some text ∧ lexTokens text = printDb db := by
   have hg := encode_calls_ok self ho db h
   obtain ⟨p', hr, _, _⟩ := hg.2 (Printer.new self.tab.toList) (fun _ => rfl)
-  refine ⟨p'.flush.output, by simp [printerText, hr], ?_⟩
-  rw [printer_tokens self.tab _ htab hg.1 _ (by simp [printerText, hr]), encode_tokens self ho db (Tok.all_lex h)]
+  refine ⟨p'.flush.output, by simp [printerText_eq, hr], ?_⟩
+  rw [printer_tokens self.tab _ htab hg.1 (encode_last_line self _) _ (by simp [printerText_eq, hr]), encode_tokens self ho db h]
 
 /-- **C17, first sentence, for the translated parser, the translated `Encoder` and the `Printer` model**: if `parse_database`
-parses the lexer's tokens `toks` (lexemes not ending in Python whitespace) to `db`, the TEXT printed for `db` is lexed to
+parses the lexer's tokens `toks` (lexemes: non-empty, without ignored characters) to `db`, the TEXT printed for `db` is lexed to
 `toks` again and parsed to `db` again -/
 theorem print_parse_real_text (F : Nat) (toks : List String) (db : Database) (self : Encoder) (ho : self.omit_proof = false)
-    (htab : WsOnly self.tab.toList) (htok : ∀ t ∈ toks, Tok t) (hF : toks.length ≤ F)
+    (htab : WsOnly self.tab.toList) (hlex : ∀ t ∈ toks, Lex t) (hF : toks.length ≤ F)
     (h : parse_database F toks = some db) :
     ∃ text, printerText self.tab (encode self db) = some text ∧ lexTokens text = toks ∧
       parse_database F (lexTokens text) = some db := by
@@ -609,7 +651,7 @@ theorem print_parse_real_text (F : Nat) (toks : List String) (db : Database) (se
   simp only [Option.map_eq_some_iff] at h
   obtain ⟨mdb, hp, rfl⟩ := h
   have hpr := MM.print_parse toks mdb hp
-  obtain ⟨text, h1, h2⟩ := encode_text_tokens self ho htab mdb (by rw [hpr]; exact htok)
+  obtain ⟨text, h1, h2⟩ := encode_text_tokens self ho htab mdb (by rw [hpr]; exact hlex)
   exact ⟨text, h1, by rw [h2, hpr], by rw [h2, hpr]; exact h0⟩
 
 theorem default_tab_ws : WsOnly Encoder.new.tab.toList := by
@@ -617,25 +659,44 @@ theorem default_tab_ws : WsOnly Encoder.new.tab.toList := by
   intro c hc
   exact List.all_eq_true.mp this c hc
 
-/-! ## without the hypothesis: a label that `str.isspace` takes for whitespace is dropped -/
+/-! ## regression: labels that `str.isspace` takes for whitespace (the defect repaired by 5aefd01) -/
 /-- the tokens of `'\xa0 $a x $.'`: the no-break space is a `TOKEN` for the grammar (`/[^ \n\t\f\r\$]+/`) -/
 def cexToks : List String := ["\u00a0", "$a", "x", "$."]
 def cexDb : MDb := [.ax "\u00a0" [.app "x" []]]
+/-- `'${ l $a a $. \x0b $a b $. $}'`: the label `'\x0b'` starts a continuation line of the block -/
+def cexToks2 : List String := ["${", "l", "$a", "a", "$.", "\x0b", "$a", "b", "$.", "$}"]
+def cexDb2 : MDb := [.block [.ax "l" [.app "a" []], .ax "\x0b" [.app "b" []]]]
 
-/-- `parse_database('\xa0 $a x $.')` succeeds (an axiom labelled `'\xa0'`), its tokens are lexemes — but the text printed for it is
-`'$a x $.\n'`: `Printer.is_line_buffer_empty` takes the label at the start of the line for indentation and replaces it; the text
-is lexed to three tokens, which `parse_database` rejects (confirmed on the real code: `UnexpectedToken`).  The label is not a
-`Tok` (it ends in a character `str.isspace` accepts) -/
-theorem printer_drops_blank_label :
+theorem lex_all {ts : List String} (h : ts.all lexB = true) : ∀ t ∈ ts, Lex t := fun t ht => List.all_eq_true.mp h t ht
+
+/-- `parse_database('\xa0 $a x $.')` (an axiom labelled `'\xa0'`) is printed as `'\xa0 $a x $.\n'`, which is lexed to the same four
+tokens and parsed to the same database -/
+theorem printer_keeps_blank_label :
     (∀ t ∈ cexToks, Lex t) ∧ parse_database 4 cexToks = some (ofDb cexDb) ∧
-    printerText Encoder.new.tab (encode Encoder.new (ofDb cexDb)) = some "$a x $.\n".toList ∧
-    lexTokens "$a x $.\n".toList = ["$a", "x", "$."] ∧ parse_database 4 ["$a", "x", "$."] = none ∧
-    tokB "\u00a0" = false := by
-  refine ⟨?_, ?_, by decide, by decide, ?_, by decide⟩
-  · have : cexToks.all lexB = true := by decide
-    exact fun t ht => List.all_eq_true.mp this t ht
-  · rw [parse_database_eq _ _ (by decide)]; rfl
-  · rw [parse_database_eq _ _ (by decide)]; rfl
+    printerText Encoder.new.tab (encode Encoder.new (ofDb cexDb)) = some "\u00a0 $a x $.\n".toList ∧
+    lexTokens "\u00a0 $a x $.\n".toList = cexToks ∧
+    parse_database 4 (lexTokens "\u00a0 $a x $.\n".toList) = some (ofDb cexDb) := by
+  have hp : parse_database 4 cexToks = some (ofDb cexDb) := by rw [parse_database_eq _ _ (by decide)]; rfl
+  have hl : lexTokens "\u00a0 $a x $.\n".toList = cexToks := by decide
+  exact ⟨lex_all (by decide), hp, by decide, hl, by rw [hl]; exact hp⟩
+
+/-- the same on a continuation line inside a block (indentation `'   '` in front of the label `'\x0b'`) -/
+theorem printer_keeps_blank_label_in_block :
+    (∀ t ∈ cexToks2, Lex t) ∧ parse_database 10 cexToks2 = some (ofDb cexDb2) ∧
+    printerText Encoder.new.tab (encode Encoder.new (ofDb cexDb2)) = some "${ l $a a $.\n   \x0b $a b $. $}\n".toList ∧
+    lexTokens "${ l $a a $.\n   \x0b $a b $. $}\n".toList = cexToks2 := by
+  refine ⟨lex_all (by decide), ?_, by decide, by decide⟩
+  rw [parse_database_eq _ _ (by decide)]; rfl
+
+/-- the class BEFORE 5aefd01 (`is_line_buffer_empty` with `len(s) != 0 and not s.isspace()`: `printerTextOld`) printed the two
+databases as `'$a x $.\n'` and `'${ l $a a $.\n   $a b $. $}\n'`: the label, taken for indentation, was replaced by the indentation;
+the first text is lexed to three tokens, which `parse_database` rejects -/
+theorem old_printer_dropped_blank_label :
+    printerTextOld Encoder.new.tab (encode Encoder.new (ofDb cexDb)) = some "$a x $.\n".toList ∧
+    printerTextOld Encoder.new.tab (encode Encoder.new (ofDb cexDb2)) = some "${ l $a a $.\n   $a b $. $}\n".toList ∧
+    lexTokens "$a x $.\n".toList = ["$a", "x", "$."] ∧ parse_database 4 ["$a", "x", "$."] = none := by
+  refine ⟨by decide, by decide, by decide, ?_⟩
+  rw [parse_database_eq _ _ (by decide)]; rfl
 
 end AstText
 
@@ -643,4 +704,7 @@ end AstText
 #print axioms AstText.encode_calls_ok
 #print axioms AstText.encode_text_tokens
 #print axioms AstText.print_parse_real_text
-#print axioms AstText.printer_drops_blank_label
+#print axioms AstText.printer_keeps_blank_label
+#print axioms AstText.printer_keeps_blank_label_in_block
+#print axioms AstText.old_printer_dropped_blank_label
+#print axioms AstText.printer_rstrip_residual
